@@ -8,6 +8,6 @@ CONSTANTS
   Emit = FALSE
   IfMode = "disjoint"
   BacktrackMode = "table"
-  ScoreMode = "nodes"
+  ScoreMode = "nodes2"
 INVARIANT InvLayout
 CHECK_DEADLOCK FALSE
